@@ -2,9 +2,5 @@ package main
 
 // thorough runs the deeper tier: see seeds.go. Filled in below.
 func thorough(def PropertyDef, rep *Report, repo string, extra map[string]any) {
-	// the replayed variants run the property's own rules; shared obligations (shared.go) are part of
-	// the base run only
-	sharedEnabled = false
-	defer func() { sharedEnabled = true }()
 	runThorough(def, rep, repo, extra)
 }
